@@ -11,6 +11,7 @@ import (
 	"os"
 	"sort"
 	"strings"
+	"sync"
 	"sync/atomic"
 	"time"
 
@@ -431,6 +432,152 @@ func (r *runner) denyAllowDenyAgain() []lib.Violation {
 	return out
 }
 
+// oddBookingIDs: the whole deny cycle for booking ids that need URL-encoding or look encoded already
+// (a deny recorded or broadcast under a re-decoded id would leave the real booking untouched).
+func (r *runner) oddBookingIDs() []lib.Violation {
+	var out []lib.Violation
+	exp := time.Now().Unix() + 600
+	for n, bid := range []string{"k3+Zp/8Qx+A=", "a%2Fb c", "b\u00fcch-\u00fc & co", "x%25y+z", strings.Repeat("L", 300)} {
+		topic := fmt.Sprintf("t-odd-%d-%d", os.Getpid(), n)
+		ua := fmt.Sprintf("odd-%d-%d", os.Getpid(), n)
+		bad := func(clause, detail string) {
+			out = append(out, lib.Violation{Clause: clause, Case: -1, Detail: fmt.Sprintf("booking id %q: %s", bid, detail),
+				Replay: map[string]interface{}{"booking_id": bid}, Key: clause + ":odd-booking-id"})
+		}
+		st, uri, code0 := r.rl.Session(topic, r.bearer2(topic, bid, exp))
+		if st != 200 {
+			continue // the access API does not take this id at all: nothing to cancel
+		}
+		c := r.dialAs(uri, ua)
+		if c == nil || !r.waitListed(ua, true) {
+			continue
+		}
+		_, _, code1 := r.rl.Session(topic, r.bearer2(topic, bid, exp)) // a second, unused code
+		if ds := r.rl.Deny(bid, exp, r.admin).Status; ds != 204 {
+			c.Close()
+			continue
+		}
+		if !r.waitListed(ua, false) {
+			bad("connection-survives-deny", "the live connection is still joined 2 s after the deny was acknowledged")
+		}
+		dl, _ := r.rl.BidList("deny", r.admin)
+		if !has(dl, bid) {
+			bad("deny-erased", fmt.Sprintf("the deny list does not name the id after the acknowledged deny (it lists %q)", dl))
+		}
+		if st2, _, _ := r.rl.Session(topic, r.bearer2(topic, bid, exp)); st2 == 200 {
+			bad("session-accepted-after-deny", "a new session request is accepted while the booking is denied")
+		}
+		if code1 != "" {
+			pu := ua + "-probe"
+			if pc := r.dialAs(r.rl.Target+"/session/"+topic+"?code="+code1, pu); pc != nil {
+				time.Sleep(40 * time.Millisecond)
+				if r.stableListed(pu) {
+					bad("code-survives-deny", "a code issued before the deny still admits a connection")
+				}
+				pc.Close()
+			}
+		}
+		_ = code0
+		c.Close()
+		r.rl.Allow(bid, time.Now().Unix()+1, r.admin)
+	}
+	return out
+}
+
+func (r *runner) bearer2(topic, bid string, exp int64) string {
+	now := time.Now().Unix()
+	return lib.Sign(r.rl.Claims(topic, bid, []string{"read", "write"}, now-5, now-5, exp), r.rl.Secret)
+}
+
+// busyBooking: a booking with many live connections (past any per-booking batch size) is denied: every one
+// of them must be closed, and the connections of another booking stay.
+func (r *runner) busyBooking() []lib.Violation {
+	var out []lib.Violation
+	bid := fmt.Sprintf("busy-%d", os.Getpid())
+	other := fmt.Sprintf("calm-%d", os.Getpid())
+	exp := time.Now().Unix() + 600
+	const n = 140
+	type jc struct {
+		ua string
+		c  *websocket.Conn
+	}
+	conns := make(chan jc, n+3)
+	var wg sync.WaitGroup
+	join := func(b, ua string) {
+		defer wg.Done()
+		topic := "t-" + b
+		st, uri, _ := r.rl.Session(topic, r.bearer2(topic, b, exp))
+		if st != 200 {
+			return
+		}
+		if c := r.dialAs(uri, ua); c != nil {
+			conns <- jc{ua, c}
+		}
+	}
+	sem := make(chan struct{}, 16)
+	for i := 0; i < n+3; i++ {
+		wg.Add(1)
+		sem <- struct{}{}
+		b, ua := bid, fmt.Sprintf("busy-%d-%d", os.Getpid(), i)
+		if i >= n {
+			b, ua = other, fmt.Sprintf("calm-%d-%d", os.Getpid(), i)
+		}
+		go func() { join(b, ua); <-sem }()
+	}
+	wg.Wait()
+	close(conns)
+	var all []jc
+	for c := range conns {
+		all = append(all, c)
+	}
+	defer func() {
+		for _, c := range all {
+			c.c.Close()
+		}
+		r.rl.Allow(bid, time.Now().Unix()+1, r.admin)
+	}()
+	count := func(prefix string) int {
+		reps, st := r.rl.Status(r.stats)
+		if st != 200 {
+			return -1
+		}
+		k := 0
+		for _, rep := range reps {
+			if s, _ := rep["user_agent"].(string); strings.HasPrefix(s, prefix) {
+				k++
+			}
+		}
+		return k
+	}
+	bp, cp := fmt.Sprintf("busy-%d-", os.Getpid()), fmt.Sprintf("calm-%d-", os.Getpid())
+	for i := 0; i < 100 && count(bp) < n; i++ {
+		time.Sleep(20 * time.Millisecond)
+	}
+	joined, calm := count(bp), count(cp)
+	if joined < n*9/10 || calm < 3 {
+		return out // could not build the population (loaded machine): not judged
+	}
+	if ds := r.rl.Deny(bid, exp, r.admin).Status; ds != 204 {
+		return out
+	}
+	left := joined
+	for i := 0; i < 125 && left > 0; i++ { // up to 2.5 s
+		time.Sleep(20 * time.Millisecond)
+		left = count(bp)
+	}
+	if left > 0 {
+		out = append(out, lib.Violation{Clause: "connection-survives-deny", Case: -1,
+			Detail: fmt.Sprintf("a booking with %d live connections was denied (204): 2.5 s later %d of them are still joined", joined, left),
+			Replay: map[string]interface{}{"connections": joined, "left": left}, Key: "connection-survives-deny:busy-booking"})
+	}
+	if c2 := count(cp); c2 != calm {
+		out = append(out, lib.Violation{Clause: "other-booking-affected", Case: -1,
+			Detail: fmt.Sprintf("denying a busy booking changed another booking's connections: %d -> %d", calm, c2),
+			Replay: map[string]interface{}{"before": calm, "after": c2}, Key: "other-booking-affected:busy-booking"})
+	}
+	return out
+}
+
 // waitListed polls /status until the user agent is (not) listed, up to 2 s.
 func (r *runner) waitListed(ua string, want bool) bool {
 	for i := 0; i < 100; i++ {
@@ -538,7 +685,6 @@ func oracle(cs Case, idx int, res *lib.Result) {
 	}
 }
 
-
 func (cs Case) coq() string {
 	th := make([]string, len(cs.Threads))
 	for i, k := range cs.Threads {
@@ -588,7 +734,11 @@ func main() {
 		}()
 		// "… until the expiry given in the deny request": a timed history beside the enumeration
 		timed := make(chan []lib.Violation, 1)
-		go func() { timed <- append(r.denyHoldsUntilItsExpiry(), r.denyAllowDenyAgain()...) }()
+		go func() {
+			v := append(r.denyHoldsUntilItsExpiry(), r.denyAllowDenyAgain()...)
+			v = append(v, r.oddBookingIDs()...)
+			timed <- append(v, r.busyBooking()...)
+		}()
 		// exhaustive: every interleaving of the two-actor families
 		r.enumerate("SD", []string{S, D}, &cases)
 		r.enumerate("WD", []string{W, D}, &cases)
